@@ -260,6 +260,64 @@ func genCase(c *vh.Ctx) *txCase {
 		lclass += "enough"
 		k.fullRun = true
 	}
+	// arithmetic-width lattice: (limit, price) pairs whose products limit*price, used*price and remaining*price land
+	// just below / at / just above 2^64 and 2^128 while each factor may or may not fit 64 bits; values near 2^64, 2^128, 2^256
+	wide := false
+	if r.Intn(4) == 0 {
+		wide = true
+		two := func(n uint) *big.Int { return new(big.Int).Lsh(big.NewInt(1), n) }
+		T := []*big.Int{two(64), two(64), two(128)}[r.Intn(3)]
+		enough := intr + k.sc.needGas
+		wclass := "width:"
+		if r.Bool() {
+			// choose the limit, derive the price from the factor that is to cross the boundary
+			ls := []uint64{enough, enough, 1 << 31, 1 << 32, 1<<63 - 1}
+			if enough <= 32768 {
+				ls = append(ls, 32768)
+			}
+			k.limit = ls[r.Intn(len(ls))]
+			f, fname := U(k.limit), "limit*price"
+			switch r.Intn(3) {
+			case 0:
+				f, fname = U(intr), "intrinsic*price"
+			case 1:
+				if k.limit > intr {
+					f, fname = U(k.limit-intr), "(limit-intrinsic)*price"
+				}
+			}
+			k.price = Add(new(big.Int).Div(T, f), big.NewInt(int64(r.Intn(4))-1))
+			wclass += fname
+		} else {
+			// choose the price, derive the limit
+			ps := []*big.Int{two(31), two(32), two(48), two(49), two(63), Sub(two(64), big.NewInt(1)), two(64), Add(two(64), big.NewInt(1)), two(128)}
+			k.price = ps[r.Intn(len(ps))]
+			q := new(big.Int).Div(T, k.price)
+			k.limit = enough
+			if q.IsUint64() && q.Uint64() >= enough && q.Uint64() < 1<<63 {
+				k.limit = q.Uint64() + uint64(r.Intn(3)) - 1
+			}
+			wclass += "price=2^k,limit~T/price"
+		}
+		if k.price.Sign() < 0 {
+			k.price = big.NewInt(0)
+		}
+		if T.BitLen() > 65 {
+			wclass += "~2^128"
+		} else {
+			wclass += "~2^64"
+		}
+		if k.limit > 5000000 && k.sc.name == "oog-loop" {
+			k.limit = enough // an endless loop must not be given 2^31 gas
+		}
+		k.fullRun = k.limit >= enough
+		lclass = "limit=wide"
+		c.Count(wclass)
+	}
+	if r.Intn(8) == 0 {
+		one := big.NewInt(1)
+		k.value = []*big.Int{Sub(new(big.Int).Lsh(one, 64), one), new(big.Int).Lsh(one, 64), new(big.Int).Lsh(one, 128), Sub(new(big.Int).Lsh(one, 256), one)}[r.Intn(4)]
+		c.Count("width:value~2^64/2^128/2^256")
+	}
 	// pool lattice
 	pclass := "pool="
 	switch r.Intn(12) {
@@ -274,6 +332,9 @@ func genCase(c *vh.Ctx) *txCase {
 		pclass += "limit+1"
 	default:
 		k.pool = 8000000
+		if wide && k.limit+100000 > k.pool {
+			k.pool = k.limit + 100000
+		}
 		pclass += "big"
 	}
 	if r.Intn(5) == 0 {
@@ -995,6 +1056,7 @@ func main() {
 	m := c.StartModel()
 	defer m.Close()
 	c.Res.Rule = "single transactions through core.ApplyTransaction over the lattice sender balance {limit*price-1,..,limit*price+value+1,big} x nonce {-1,0,+1} x price {0,1,1e9,2^64+3} x limit {intrinsic-1,intrinsic,intrinsic+1,partial,enough,ample} x pool {limit-1,limit,limit+1,big} x data zero/non-zero mixes x callee program (plain, precompile, SSTORE set/clear at and below the refund cap, REVERT, out-of-gas, invalid, logs then failure, value out to sink/sender/coinbase, SELFDESTRUCT variants, inner failing call, inner CREATE, creations: ok/empty/revert/invalid/code-deposit/collision/funded address) x 10 (config,height) points on both sides of Byzantium; plus blocks of 1-4 transactions from two senders through StateProcessor.Process and ValidateState with tight/exact/ample block gas limits and wrong claimed gas used. A case is distinct by (scenario, receipt format, outcome, price, limit)."
+	c.Assume("cumulative gas cannot approach 2^64 inside a block: every transaction's gas limit is taken from the pool, which starts at the header's uint64 gas limit (theorem C06_gas_accounting_block, premise h_gas_limit < 2^64), so that sum is not given a width lattice; limit*price, used*price, remaining*price and value are")
 	c.Assume("transactions are signed with valid keys (signature recovery is C12); block numbers, gas price and value are non-negative")
 	c.Assume("the direct oracle's 'failed execution leaves only fees' clause is evaluated on Homestead configurations (every built-in configuration has HomesteadBlock = 0)")
 	// self-checks of the model's primitives against the implementation
